@@ -65,6 +65,8 @@ K("awkward_ListArray_getitem_next_array_advanced",
 K("awkward_ListArray_getitem_next_range_spreadadvanced",
   extents={"toadvanced": "fromoffsets[lenstarts]"},
   requires=["fromoffsets[0] >= 0", SORTED("fromoffsets", "lenstarts + 1")],
+  # C01: every element a range selects from list i iterates with list i's entry of the advanced index
+  store_asserts={"toadvanced": ["at == fromoffsets[i] + j", "value == fromadvanced[i]"]},
   serves=["C01", "C12", "C13"])
 
 K("awkward_ListArray_localindex",
@@ -161,6 +163,9 @@ K("awkward_NumpyArray_getitem_next_array_advanced",
   extents={"flatheadptr": "ghost_nhead"},
   ghost={"ghost_nhead": ([], None)},
   requires=["forall(q, 0, lencarry, 0 <= advancedptr[q] < ghost_nhead)"],
+  # C01: adjacent index arrays iterate together: position q takes entry advanced[q] of the flattened index array
+  loops={"L0": ["0 <= i", "forall(q, 0, i, nextcarryptr[q] == skip*carryptr[q] + flatheadptr[advancedptr[q]])"]},
+  ensures_ok=["forall(q, 0, lencarry, nextcarryptr[q] == skip*carryptr[q] + flatheadptr[advancedptr[q]])"],
   serves=["C01", "C12", "C13"])
 
 K("awkward_NumpyArray_reduce_adjust_starts_64",
@@ -211,6 +216,10 @@ K("awkward_UnionArray_simplify",
   serves=["C08", "C12", "C13"])
 
 K("awkward_UnionArray_simplify_one",
+  # C08: an element of the merged-away content gets the surviving content's tag and its position behind the
+  # elements already placed there; every other element is left as it is
+  store_asserts={"totags": ["at == i", "fromtags[i] == fromwhich", "implies(0 - 128 <= towhich and towhich < 128, value == towhich)"],
+                 "toindex": ["at == i", "fromtags[i] == fromwhich", "value == fromindex[i] + base"]},
   serves=["C08", "C12", "C13"])
 
 # ---------------------------------------------------------------- carry_SliceJagged
@@ -242,6 +251,8 @@ K("awkward_UnionArray_regular_index",
 K("awkward_RegularArray_getitem_next_array_advanced",
   extents={"fromarray": "lenarray"},
   requires=[INRANGE("fromadvanced", "length", "lenarray")],
+  loops={"L0": ["0 <= i", "forall(q, 0, i, tocarry[q] == q*size + fromarray[fromadvanced[q]] and toadvanced[q] == q)"]},
+  ensures_ok=["forall(q, 0, length, tocarry[q] == q*size + fromarray[fromadvanced[q]] and toadvanced[q] == q)"],
   serves=["C01", "C12", "C13"])
 
 
